@@ -26,8 +26,9 @@
    to the flattened list of leaf errors it carries (martian.MultiError.Add
    keeps depth <= 1; nil = []).  *)
 
-From Coq Require Import List NArith ZArith Bool.
+From Coq Require Import List NArith ZArith Bool Arith Ascii String.
 Import ListNotations.
+Local Open Scope list_scope.
 
 (* ------------------------------------------------------------------ *)
 (* Configuration trees                                                 *)
@@ -451,6 +452,231 @@ Definition c12_conc_ok (k : kind) (cond : N -> bool) (ts : list tree)
      | [] => false
      | _ :: _ => eff_eqb (last obs eff0) (last (accepted_meanings k cond ts) eff0)
      end.
+
+(* ------------------------------------------------------------------ *)
+(* Independent specification of the five filter conditions             *)
+(* ------------------------------------------------------------------ *)
+
+(* What a condition may look at.  For a response, [m_headers]/[m_cookies] are
+   the response's header lines / Set-Cookie cookies, and method / URL / query
+   are those of the request it answers.  Header names are canonical
+   (net/http stores them so); query pairs are decoded, in order of appearance. *)
+Record msg := mkMsg {
+  m_method : string;
+  m_scheme : string;
+  m_host : string;
+  m_path : string;
+  m_rawquery : string;
+  m_headers : list (string * string);
+  m_query : list (string * string);
+  m_cookies : list (string * string)
+}.
+
+Inductive fcond :=
+| FHeader (name value : string)            (* header.Filter: name, value *)
+| FUrl (scheme host path query : string)   (* url.Filter: every non-empty component *)
+| FQuery (name value : string)             (* querystring.Filter: value "" = any *)
+| FMethod (meth : string)                  (* method.Filter *)
+| FCookie (name value : string).           (* cookie.Filter: value "" = any *)
+
+Definition is_lower (c : ascii) : bool :=
+  let n := nat_of_ascii c in (97 <=? n) && (n <=? 122).
+Definition is_upper (c : ascii) : bool :=
+  let n := nat_of_ascii c in (65 <=? n) && (n <=? 90).
+Definition to_upper (c : ascii) : ascii :=
+  if is_lower c then ascii_of_nat (nat_of_ascii c - 32) else c.
+Definition to_lower (c : ascii) : ascii :=
+  if is_upper c then ascii_of_nat (nat_of_ascii c + 32) else c.
+
+(* canonical MIME header key, for names made of letters, digits and '-' *)
+Fixpoint canon (up : bool) (s : string) : string :=
+  match s with
+  | EmptyString => EmptyString
+  | String c r => String (if up then to_upper c else to_lower c) (canon (Ascii.eqb c "-") r)
+  end.
+Definition canon_header (s : string) : string := canon true s.
+
+Fixpoint lower (s : string) : string :=
+  match s with EmptyString => EmptyString | String c r => String (to_lower c) (lower r) end.
+
+(* "a.b.c" -> ["a"; "b"; "c"] *)
+Fixpoint labels (s : string) : list string :=
+  match s with
+  | EmptyString => [EmptyString]
+  | String c r =>
+      if Ascii.eqb c "." then EmptyString :: labels r
+      else match labels r with
+           | l :: ls => String c l :: ls
+           | [] => [String c EmptyString]
+           end
+  end.
+
+Fixpoint labels_match (h p : list string) : bool :=
+  match h, p with
+  | [], [] => true
+  | x :: h', y :: p' => (String.eqb y "*" || String.eqb x y) && labels_match h' p'
+  | _, _ => false
+  end.
+
+(* host pattern: equal, or label by label with "*" standing for one label *)
+Definition host_match (host pat : string) : bool :=
+  negb (String.eqb host "") && (String.eqb host pat || labels_match (labels host) (labels pat)).
+
+Definition opt_eq (want have : string) : bool := String.eqb want "" || String.eqb want have.
+
+Definition cond_holds (f : fcond) (m : msg) : bool :=
+  match f with
+  | FHeader n v =>
+      existsb (fun nv => String.eqb (fst nv) (canon_header n) && String.eqb (snd nv) v) (m_headers m)
+  | FUrl sc h p q =>
+      opt_eq sc (m_scheme m) && (String.eqb h "" || host_match (m_host m) h)
+      && opt_eq p (m_path m) && opt_eq q (m_rawquery m)
+  | FQuery n v =>
+      existsb (fun nv => String.eqb (fst nv) n && opt_eq v (snd nv)) (m_query m)
+  | FMethod x => String.eqb (lower x) (lower (m_method m))
+  | FCookie n v =>
+      existsb (fun nv => String.eqb (fst nv) n && opt_eq v (snd nv)) (m_cookies m)
+  end.
+
+(* condition valuation of a message, given which filter each key denotes *)
+Fixpoint lookup_cond (c : N) (tbl : list (N * fcond)) : option fcond :=
+  match tbl with
+  | [] => None
+  | (k, f) :: r => if N.eqb k c then Some f else lookup_cond c r
+  end.
+
+Definition cond_of (tbl : list (N * fcond)) (m : msg) (c : N) : bool :=
+  match lookup_cond c tbl with Some f => cond_holds f m | None => false end.
+
+(* the real matchers' verdicts (one per filter key) are those of the spec *)
+Definition c12_bits_ok (tbl : list (N * fcond)) (m : msg) (bits : list (N * bool)) : bool :=
+  forallb (fun kb => Bool.eqb (snd kb) (cond_of tbl m (fst kb))) bits.
+
+(* ------------------------------------------------------------------ *)
+(* Atomic replacement seen by concurrent exchanges                     *)
+(* ------------------------------------------------------------------ *)
+
+(* generic form of [explained]: [mt o c] = observation o is what state c shows *)
+Fixpoint explained_by {O C : Type} (mt : O -> C -> bool) (ms : list C) (obs : list O)
+  {struct obs} : bool :=
+  match obs with
+  | [] => true
+  | o :: obs' =>
+      (fix adv (l : list C) : bool :=
+         match l with
+         | [] => false
+         | m :: l' => if mt o m then explained_by mt l obs' else adv l'
+         end) ms
+  end.
+
+(* the configuration in force: none, or (ordinal of the POST, its tree) *)
+Definition cfgstate := option (nat * tree).
+
+Definition meaning (k : kind) (cond : N -> bool) (cur : cfgstate) : eff :=
+  match cur with Some (_, t) => eval k cond t | None => eff0 end.
+
+(* one observation by a thread: the request half acted, the response half
+   acted, or GET reported a configuration *)
+Inductive pobs :=
+| PReq (tr er : list N)
+| PRes (tr er : list N)
+| PCfg (i : option nat).
+
+Definition pmatch (cq cs : N -> bool) (o : pobs) (st : cfgstate) : bool :=
+  match o with
+  | PReq tr er => eff_eqb (tr, er) (meaning KReq cq st)
+  | PRes tr er => eff_eqb (tr, er) (meaning KRes cs st)
+  | PCfg i => optnat_eqb i (match st with Some (j, _) => Some j | None => None end)
+  end.
+
+Fixpoint states_from (n : nat) (ts : list tree) : list cfgstate :=
+  match ts with
+  | [] => []
+  | t :: r => if has_bad t then states_from (S n) r else Some (n, t) :: states_from (S n) r
+  end.
+
+Definition cfg_states (ts : list tree) : list cfgstate := None :: states_from 0 ts.
+
+(* One thread POSTs [ts]; every other thread records, in its own program
+   order, what it saw (request half, response half of the same exchange, GET).
+   Atomic replacement permits exactly: each thread's observations walk forward
+   through the accepted configurations - so within one exchange the response
+   half is never older than the request half, and a GET is never ahead of or
+   behind a modifier observed around it - and end on the last one. *)
+Definition c12_stress_ok (cq cs : N -> bool) (ts : list tree)
+  (statuses : list bool) (threads : list (list pobs)) : bool :=
+  list_eqb Bool.eqb statuses (map (fun t => negb (has_bad t)) ts)
+  && forallb (fun obs =>
+       explained_by (pmatch cq cs) (cfg_states ts) obs
+       && match obs with
+          | [] => true
+          | o :: _ => pmatch cq cs (last obs o) (last (cfg_states ts) None)
+          end) threads.
+
+(* interleaved steps of the model: a POST, or an observation of one component *)
+Inductive comp := WReq | WRes | WCfg.
+Inductive cstep := SPost (t : tree) | SObs (w : comp).
+
+Definition impl_observe (cq cs : N -> bool) (a : active) (w : comp) : pobs :=
+  match w with
+  | WReq => let x := serve a KReq cq in PReq (fst x) (snd x)
+  | WRes => let x := serve a KRes cs in PRes (fst x) (snd x)
+  | WCfg => PCfg (acfg a)
+  end.
+
+Fixpoint impl_steps (cq cs : N -> bool) (n : nat) (a : active) (ss : list cstep) : list pobs :=
+  match ss with
+  | [] => []
+  | SPost t :: r => impl_steps cq cs (S n) (fst (post n a t)) r
+  | SObs w :: r => impl_observe cq cs a w :: impl_steps cq cs n a r
+  end.
+
+Fixpoint sposts (ss : list cstep) : list tree :=
+  match ss with
+  | [] => []
+  | SPost t :: r => t :: sposts r
+  | SObs _ :: r => sposts r
+  end.
+
+(* ------------------------------------------------------------------ *)
+(* Lock shape of servePOST (instantiated from the source by gen_c12)   *)
+(* ------------------------------------------------------------------ *)
+
+Inductive sp_event := SpLock | SpUnlock | SpSetCfg | SpSetReq | SpSetRes.
+
+(* which of (config text, request modifier, response modifier) already hold
+   the new value *)
+Definition sp_state := (bool * bool * bool)%type.
+
+Definition sp_write (e : sp_event) (st : sp_state) : sp_state :=
+  let '(c, q, s) := st in
+  match e with
+  | SpSetCfg => (true, q, s)
+  | SpSetReq => (c, true, s)
+  | SpSetRes => (c, q, true)
+  | _ => st
+  end.
+
+(* the states another goroutine can observe while the events run: a write
+   outside the lock is visible at once, writes under the lock at the unlock *)
+Fixpoint sp_visible (evs : list sp_event) (locked : bool) (st : sp_state) : list sp_state :=
+  match evs with
+  | [] => []
+  | SpLock :: r => sp_visible r true st
+  | SpUnlock :: r => st :: sp_visible r false st
+  | e :: r =>
+      let st' := sp_write e st in
+      if locked then sp_visible r locked st' else st' :: sp_visible r locked st'
+  end.
+
+Definition sp_all (b : bool) (st : sp_state) : bool :=
+  let '(c, q, s) := st in Bool.eqb c b && Bool.eqb q b && Bool.eqb s b.
+
+(* nothing but "all old" or "all new" is ever visible, and at the end all new *)
+Definition sp_atomic (evs : list sp_event) : bool :=
+  let vs := sp_visible evs false (false, false, false) in
+  forallb (fun st => sp_all false st || sp_all true st) vs
+  && match rev vs with st :: _ => sp_all true st | [] => false end.
 
 Fixpoint first_diff (n : nat) (a b : list obs) : option nat :=
   match a, b with
